@@ -17,7 +17,8 @@ def engine(contracts):
 
 def run(tier, seed):
     chk = Check("C20", tier, seed, "proof", "./check C20 --tier " + tier)
-    chk.explanation = ("Proved (all values symbolic, N = 2 resp. 1 coarse elements with loops unrolled): the virtual quartering produces, "
+    chk.explanation = ("Proved for element lists of ANY length (loop invariant over the coarse list, quarters identified by their position "
+                       "in the flattened list, DOT terms over the shared dimension) and again fully unfolded for N = 2: the virtual quartering produces, "
                        "in this order, the (time half k//2, space half k%2) quarters carrying the parent's piece; the hierarchical "
                        "indicators equal (e_t + e_ts/2, e_s + e_ts/2) with e_psi = |<g - M0u0 - V Phi, psi>|^2 / <V psi, psi> for the three "
                        "geometrically defined two-level functions; the h-h/2 value equals sqrt(d^T A d) for d = fine Galerkin solution minus "
@@ -29,6 +30,13 @@ def run(tier, seed):
     verify_contracts(eng, [c for c in estimators.hier_contracts if c.setup], chk)
     eng = engine(estimators.hh2_contracts)
     verify_contracts(eng, [c for c in estimators.hh2_contracts if c.setup], chk)
+    from contracts import hier_n
+    for cs in (hier_n.hier_contracts, hier_n.hh2_contracts):
+        eng = common.new_engine(cs, "C20")
+        arrays.install(eng)
+        extio.install(eng)
+        hier_n.install(eng)
+        verify_contracts(eng, [c for c in cs if c.setup], chk)
     from contracts import prolongate
     eng = common.new_engine(prolongate.contracts, "C20")
     arrays.install(eng)
